@@ -330,8 +330,10 @@ def fixtures():
     h4 = gpgfix.GpgHome()
     f4 = h4.gen_key('Revoked <rev@example.com>')
     signed4 = h4.clearsign(BODY)
+    pub4_before = h4.export(f4)
     h4.revoke(f4)
-    fx['revoked'] = dict(home=h4, fpr=f4, pub=h4.export(f4), signed=signed4)
+    fx['revoked'] = dict(home=h4, fpr=f4, pub=h4.export(f4), signed=signed4,
+                         pub_before=pub4_before)
     # primary (certify only) + signing subkey
     h5 = gpgfix.GpgHome()
     f5 = h5.gen_key('Sub <sub@example.com>', usage='cert')
@@ -355,7 +357,7 @@ def fixtures():
 
 
 KEYSTATES = ['valid', 'valid', 'expired', 'revoked', 'notimported',
-             'otherkey', 'subkey', 'nobinding']
+             'otherkey', 'subkey', 'nobinding', 'revoked-later']
 TRUSTS = ['none', 2, 3, 4, 5, 6, 'import-trust']
 
 
@@ -383,11 +385,57 @@ def make_env(pub, trust, fpr):
     return env
 
 
+def run_revoked_later(fx, desc):
+    """One environment: the key is imported and a signature accepted; then
+    the key arrives again, now with its revocation."""
+    k = fx['revoked']
+    env = None
+    classes = ['state:revoked-later', 'via:' + desc['via']]
+    try:
+        env = make_env(k['pub_before'], 'import-trust', k['fpr'])
+
+        def look():
+            if desc['via'] == 'verify_file':
+                return env.verify_file(io.StringIO(k['signed']))
+            m = ManifestFile()
+            m.load(io.StringIO(k['signed']), verify_openpgp=True,
+                   openpgp_env=env)
+            if not m.openpgp_signed:
+                raise AssertionError('loaded but not signed')
+            return m.openpgp_signature
+        try:
+            look()
+        except GematoException as e:
+            return violation(
+                f'signature by a (not yet revoked) trusted key rejected: '
+                f'{e!r}', sig='rejected-good:before-revocation',
+                classes=classes)
+        env.import_key(io.BytesIO(k['pub']), trust=True)
+        try:
+            look()
+        except GematoException as e:
+            if type(e).__name__ != 'OpenPGPRevokedKeyFailure':
+                return violation(
+                    f'after importing the revocation: rejected with '
+                    f'{type(e).__name__}, expected OpenPGPRevokedKeyFailure',
+                    sig='wrong-failure:revoked-later', classes=classes)
+            return ok(nontrivial=True, classes=classes)
+        return violation(
+            'the same environment accepted the signature again after the '
+            'key\'s revocation had been imported into it',
+            sig='accepted:revoked-later', classes=classes)
+    finally:
+        if env is not None:
+            env.close()
+
+
 def run_keys(desc):
     fx = fixtures()
     if fx is None:
         return skip('no-gpg')
     state, trust = desc['state'], desc['trust']
+    if state == 'revoked-later':
+        return run_revoked_later(fx, desc)
     if state == 'notimported':
         k, pub = fx['valid'], None
     elif state == 'otherkey':
@@ -592,7 +640,11 @@ def cli_case(draw):
             's': draw(st.booleans()), 'P': draw(st.booleans()),
             'K': draw(st.sampled_from(['signer', 'other', 'none'])),
             'userhome': draw(st.sampled_from(['empty', 'signer-ultimate',
-                                              'others']))}
+                                              'others'])),
+            # `gemato openpgp-verify` over this file and a good one
+            'cmd': draw(st.sampled_from(['verify', 'verify',
+                                         'openpgp-verify'])),
+            'good_first': draw(st.booleans())}
 
 
 def strat_cli(tier):
@@ -665,6 +717,10 @@ def run_cli(desc):
         before = user_snapshot()
         listing_before = user.run(['--list-keys', '--with-colons']).stdout
         before = user_snapshot()
+        if desc.get('cmd') == 'openpgp-verify' \
+                and desc['manifest'] != 'unsigned+signed-sibling':
+            return run_cli_openpgp_verify(desc, d, tree, argv, valid, user,
+                                          user_snapshot, listing_before)
         oc, records, _ = gem.cli(argv + [tree])
         after = user_snapshot()
         listing_after = user.run(['--list-keys', '--with-colons']).stdout
@@ -729,6 +785,57 @@ def run_cli(desc):
         if user is not None:
             user.close()
         harness.rmtree(d)
+
+
+def run_cli_openpgp_verify(desc, d, tree, argv, valid, user, user_snapshot,
+                           listing_before):
+    """`gemato openpgp-verify [-K key] -R <file> <good file>` (either order):
+    exit status 0 iff every file carries an accepted signature."""
+    good = os.path.join(d, 'good.asc')
+    with open(good, 'w') as f:
+        f.write(valid['home'].clearsign('some other text\n'))
+    files = [os.path.join(tree, 'Manifest'), good]
+    if desc.get('good_first'):
+        files.reverse()
+    args = ['openpgp-verify'] + [a for a in argv[1:]
+                                 if a not in ('-s', '-P')]
+    before = user_snapshot()
+    oc, records, _ = gem.cli(args + files)
+    after = user_snapshot()
+    what = (f'`gemato {" ".join(args)} '
+            f'{" ".join(os.path.basename(x) for x in files)}` with a '
+            f'{desc["manifest"]} first file, user keyring: '
+            f'{desc["userhome"]}')
+    classes = ['cmd:openpgp-verify', 'manifest:' + desc['manifest'],
+               'K:' + desc['K'], 'user:' + desc['userhome']]
+    if oc.kind not in ('return', 'gemato'):
+        return violation(f'{what}: {oc.describe()}', sig='exc:' + oc.kind,
+                         classes=classes)
+    if desc['K'] == 'signer':
+        keys = {'valid'}
+    elif desc['K'] == 'other':
+        keys = {'other'}
+    else:
+        keys = {'signer-ultimate': {'valid'}, 'others': {'other'},
+                'empty': set()}[desc['userhome']]
+    signer = {'good': 'valid', 'tampered': None, 'other': 'other',
+              'unsigned': None}[desc['manifest']]
+    all_ok = signer is not None and signer in keys and 'valid' in keys
+    rc = oc.value if oc.kind == 'return' else 1
+    if (rc == 0) != all_ok:
+        return violation(
+            f'{what}: exit status {rc!r}, expected '
+            f'{"0" if all_ok else "non-zero"} (keys that count: '
+            f'{sorted(keys)})',
+            sig=f'openpgp-verify-exit:{desc["manifest"]}:K={desc["K"]}:'
+                f'want{"0" if all_ok else "1"}', classes=classes)
+    if user.run(['--list-keys', '--with-colons']).stdout != listing_before:
+        return violation(f'{what}: the user\'s keyring changed',
+                         sig='user-keyring-changed', classes=classes)
+    if desc['K'] != 'none' and before != after:
+        return violation(f'{what}: files in the user\'s GNUPGHOME changed',
+                         sig='user-home-touched', classes=classes)
+    return ok(nontrivial=True, classes=classes)
 
 
 def cleanup():
